@@ -21,213 +21,212 @@
    This file never calls the back-end models.  The finding classes of the unchanged tree are
    decided on the IR ([parsed], a type only). *)
 From Coq Require Import String.
-From TS Require Import Model.Str Model.Types Model.Parse.
+From TS Require Import Model.Str Model.Types Model.Parse Model.Lang.Decl.
 
 (* ------------------------------------------------------------------ lexer configuration *)
-Inductive sq_mode := SqNone | SqString | SqChar.            (* what a single quote starts *)
-Inductive bt_mode := BtNone | BtRaw | BtTemplate | BtIdent. (* what a back-tick starts *)
+Inductive c10_sq_mode := C10SqNone | C10SqString | C10SqChar.            (* what a single quote starts *)
+Inductive c10_bt_mode := C10BtNone | C10BtRaw | C10BtTemplate | C10BtIdent. (* what a back-tick starts *)
 
-Record lexcfg := {
-  lc_slash : bool;      (* `//` line comments and `/* */` block comments *)
-  lc_nest : bool;       (* block comments nest *)
-  lc_hash : bool;       (* `#` starts a line comment *)
-  lc_triple : bool;     (* triple-quoted string literals *)
-  lc_sq : sq_mode;
-  lc_bt : bt_mode;
-  lc_cr : bool          (* a carriage return ends a line (everywhere but Go) *)
+Record c10_lexcfg := {
+  c10_lc_slash : bool;      (* `//` line comments and `/* */` block comments *)
+  c10_lc_nest : bool;       (* block comments nest *)
+  c10_lc_hash : bool;       (* `#` starts a line comment *)
+  c10_lc_triple : bool;     (* triple-quoted string literals *)
+  c10_lc_sq : c10_sq_mode;
+  c10_lc_bt : c10_bt_mode;
+  c10_lc_cr : bool          (* a carriage return ends a line (everywhere but Go) *)
 }.
 
-Definition lex_ts : lexcfg := {| lc_slash := true; lc_nest := false; lc_hash := false; lc_triple := false;
-                                 lc_sq := SqString; lc_bt := BtTemplate; lc_cr := true |}.
-Definition lex_kt : lexcfg := {| lc_slash := true; lc_nest := true; lc_hash := false; lc_triple := true;
-                                 lc_sq := SqChar; lc_bt := BtIdent; lc_cr := true |}.
-Definition lex_sw : lexcfg := {| lc_slash := true; lc_nest := true; lc_hash := false; lc_triple := true;
-                                 lc_sq := SqNone; lc_bt := BtIdent; lc_cr := true |}.
-Definition lex_sc : lexcfg := {| lc_slash := true; lc_nest := true; lc_hash := false; lc_triple := true;
-                                 lc_sq := SqChar; lc_bt := BtIdent; lc_cr := true |}.
-Definition lex_go : lexcfg := {| lc_slash := true; lc_nest := false; lc_hash := false; lc_triple := false;
-                                 lc_sq := SqChar; lc_bt := BtRaw; lc_cr := false |}.
-Definition lex_py : lexcfg := {| lc_slash := false; lc_nest := false; lc_hash := true; lc_triple := true;
-                                 lc_sq := SqString; lc_bt := BtNone; lc_cr := true |}.
+Definition c10_lex_ts : c10_lexcfg := {| c10_lc_slash := true; c10_lc_nest := false; c10_lc_hash := false; c10_lc_triple := false;
+                                 c10_lc_sq := C10SqString; c10_lc_bt := C10BtTemplate; c10_lc_cr := true |}.
+Definition c10_lex_kt : c10_lexcfg := {| c10_lc_slash := true; c10_lc_nest := true; c10_lc_hash := false; c10_lc_triple := true;
+                                 c10_lc_sq := C10SqChar; c10_lc_bt := C10BtIdent; c10_lc_cr := true |}.
+Definition c10_lex_sw : c10_lexcfg := {| c10_lc_slash := true; c10_lc_nest := true; c10_lc_hash := false; c10_lc_triple := true;
+                                 c10_lc_sq := C10SqNone; c10_lc_bt := C10BtIdent; c10_lc_cr := true |}.
+Definition c10_lex_sc : c10_lexcfg := {| c10_lc_slash := true; c10_lc_nest := true; c10_lc_hash := false; c10_lc_triple := true;
+                                 c10_lc_sq := C10SqChar; c10_lc_bt := C10BtIdent; c10_lc_cr := true |}.
+Definition c10_lex_go : c10_lexcfg := {| c10_lc_slash := true; c10_lc_nest := false; c10_lc_hash := false; c10_lc_triple := false;
+                                 c10_lc_sq := C10SqChar; c10_lc_bt := C10BtRaw; c10_lc_cr := false |}.
+Definition c10_lex_py : c10_lexcfg := {| c10_lc_slash := false; c10_lc_nest := false; c10_lc_hash := true; c10_lc_triple := true;
+                                 c10_lc_sq := C10SqString; c10_lc_bt := C10BtNone; c10_lc_cr := true |}.
 
 (* ------------------------------------------------------------------ states *)
-Inductive lmode :=
-| LCode                      (* ordinary code *)
-| LSlash                     (* code; the previous character was `/` *)
-| LLine                      (* line comment, up to the line end *)
-| LBlock (d : nat)           (* block comment, d enclosing block comments *)
-| LBlockStar (d : nat)       (* ... the previous character was `*` *)
-| LBlockSlash (d : nat)      (* ... the previous character was `/` (nesting languages) *)
-| LQ1 (q : char)             (* one quote q seen (triple-quote languages) *)
-| LQ2 (q : char)             (* two quotes seen: the empty literal, or the start of a triple quote *)
-| LStr (q : char)            (* single-line literal delimited by q *)
-| LStrEsc (q : char)         (* ... after a backslash *)
-| LTri (q : char)            (* triple-quoted literal *)
-| LTriEsc (q : char)         (* ... after a backslash *)
-| LTri1 (q : char)           (* ... one closing quote seen *)
-| LTri2 (q : char)           (* ... two closing quotes seen *)
-| LRaw                       (* Go raw string `..` *)
-| LTpl                       (* TypeScript template literal *)
-| LTplEsc
-| LTick                      (* back-ticked identifier (Kotlin, Swift, Scala) *)
-| LErr.                      (* absorbing *)
+Inductive c10_lmode :=
+| C10LCode                      (* ordinary code *)
+| C10LSlash                     (* code; the previous character was `/` *)
+| C10LLine                      (* line comment, up to the line end *)
+| C10LBlock (d : nat)           (* block comment, d enclosing block comments *)
+| C10LBlockStar (d : nat)       (* ... the previous character was `*` *)
+| C10LBlockSlash (d : nat)      (* ... the previous character was `/` (nesting languages) *)
+| C10LQ1 (q : char)             (* one quote q seen (triple-quote languages) *)
+| C10LQ2 (q : char)             (* two quotes seen: the empty literal, or the start of a triple quote *)
+| C10LStr (q : char)            (* single-line literal delimited by q *)
+| C10LStrEsc (q : char)         (* ... after a backslash *)
+| C10LTri (q : char)            (* triple-quoted literal *)
+| C10LTriEsc (q : char)         (* ... after a backslash *)
+| C10LTri1 (q : char)           (* ... one closing quote seen *)
+| C10LTri2 (q : char)           (* ... two closing quotes seen *)
+| C10LRaw                       (* Go raw string `..` *)
+| C10LTpl                       (* TypeScript template literal *)
+| C10LTplEsc
+| C10LTick                      (* back-ticked identifier (Kotlin, Swift, Scala) *)
+| C10LErr.                      (* absorbing *)
 
-Definition lstate := (lmode * list char)%type.
+Definition c10_lstate := (c10_lmode * list char)%type.
 
-Definition c_lparen : char := 40.  Definition c_rparen : char := 41.
-Definition c_lbrack : char := 91.  Definition c_rbrack : char := 93.
-Definition c_lbrace : char := 123. Definition c_rbrace : char := 125.
-Definition c_slash : char := 47.   Definition c_star : char := 42.
-Definition c_hash : char := 35.    Definition c_tick : char := 96.
+Definition c10_c_lparen : char := 40.  Definition c10_c_rparen : char := 41.
+Definition c10_c_lbrack : char := 91.  Definition c10_c_rbrack : char := 93.
+Definition c10_c_lbrace : char := 123. Definition c10_c_rbrace : char := 125.
+Definition c10_c_slash : char := 47.   Definition c10_c_star : char := 42.
+Definition c10_c_hash : char := 35.    Definition c10_c_tick : char := 96.
 
 (* the closer an opening bracket expects *)
-Definition closer_of (c : char) : option char :=
-  if c =? c_lparen then Some c_rparen
-  else if c =? c_lbrack then Some c_rbrack
-  else if c =? c_lbrace then Some c_rbrace
+Definition c10_closer_of (c : char) : option char :=
+  if c =? c10_c_lparen then Some c10_c_rparen
+  else if c =? c10_c_lbrack then Some c10_c_rbrack
+  else if c =? c10_c_lbrace then Some c10_c_rbrace
   else None.
-Definition is_closer (c : char) : bool := (c =? c_rparen) || (c =? c_rbrack) || (c =? c_rbrace).
+Definition c10_is_closer (c : char) : bool := (c =? c10_c_rparen) || (c =? c10_c_rbrack) || (c =? c10_c_rbrace).
 
-Definition is_line_end (cfg : lexcfg) (c : char) : bool := (c =? ch_nl) || (lc_cr cfg && (c =? ch_cr)).
+Definition c10_is_line_end (cfg : c10_lexcfg) (c : char) : bool := (c =? ch_nl) || (c10_lc_cr cfg && (c =? ch_cr)).
 
 (* one character in code mode *)
-Definition code_step (cfg : lexcfg) (st : list char) (c : char) : lstate :=
-  match closer_of c with
-  | Some k => (LCode, k :: st)
+Definition c10_code_step (cfg : c10_lexcfg) (st : list char) (c : char) : c10_lstate :=
+  match c10_closer_of c with
+  | Some k => (C10LCode, k :: st)
   | None =>
-    if is_closer c then
+    if c10_is_closer c then
       match st with
-      | k :: r => if k =? c then (LCode, r) else (LErr, st)
-      | [] => (LErr, st)
+      | k :: r => if k =? c then (C10LCode, r) else (C10LErr, st)
+      | [] => (C10LErr, st)
       end
-    else if c =? ch_dq then (if lc_triple cfg then LQ1 ch_dq else LStr ch_dq, st)
+    else if c =? ch_dq then (if c10_lc_triple cfg then C10LQ1 ch_dq else C10LStr ch_dq, st)
     else if c =? ch_sq then
-      match lc_sq cfg with
-      | SqNone => (LErr, st)
-      | SqString => (if lc_triple cfg then LQ1 ch_sq else LStr ch_sq, st)
-      | SqChar => (LStr ch_sq, st)
+      match c10_lc_sq cfg with
+      | C10SqNone => (C10LErr, st)
+      | C10SqString => (if c10_lc_triple cfg then C10LQ1 ch_sq else C10LStr ch_sq, st)
+      | C10SqChar => (C10LStr ch_sq, st)
       end
-    else if c =? c_tick then
-      match lc_bt cfg with
-      | BtNone => (LErr, st)
-      | BtRaw => (LRaw, st)
-      | BtTemplate => (LTpl, st)
-      | BtIdent => (LTick, st)
+    else if c =? c10_c_tick then
+      match c10_lc_bt cfg with
+      | C10BtNone => (C10LErr, st)
+      | C10BtRaw => (C10LRaw, st)
+      | C10BtTemplate => (C10LTpl, st)
+      | C10BtIdent => (C10LTick, st)
       end
-    else if (c =? c_slash) && lc_slash cfg then (LSlash, st)
-    else if (c =? c_hash) && lc_hash cfg then (LLine, st)
-    else (LCode, st)
+    else if (c =? c10_c_slash) && c10_lc_slash cfg then (C10LSlash, st)
+    else if (c =? c10_c_hash) && c10_lc_hash cfg then (C10LLine, st)
+    else (C10LCode, st)
   end.
 
-Definition lex_step (cfg : lexcfg) (s : lstate) (c : char) : lstate :=
+Definition c10_lex_step (cfg : c10_lexcfg) (s : c10_lstate) (c : char) : c10_lstate :=
   let '(m, st) := s in
   match m with
-  | LCode => code_step cfg st c
-  | LSlash => if c =? c_slash then (LLine, st) else if c =? c_star then (LBlock 0, st) else code_step cfg st c
-  | LLine => if is_line_end cfg c then (LCode, st) else (LLine, st)
-  | LBlock d => if c =? c_star then (LBlockStar d, st)
-                else if (c =? c_slash) && lc_nest cfg then (LBlockSlash d, st) else (LBlock d, st)
-  | LBlockStar d => if c =? c_slash then (match d with O => LCode | S d' => LBlock d' end, st)
-                    else if c =? c_star then (LBlockStar d, st) else (LBlock d, st)
-  | LBlockSlash d => if c =? c_star then (LBlock (S d), st)
-                     else if c =? c_slash then (LBlockSlash d, st) else (LBlock d, st)
-  | LQ1 q => if c =? q then (LQ2 q, st)
-             else if c =? ch_bs then (LStrEsc q, st)
-             else if is_line_end cfg c then (LErr, st) else (LStr q, st)
-  | LQ2 q => if c =? q then (LTri q, st) else code_step cfg st c
-  | LStr q => if c =? q then (LCode, st)
-              else if c =? ch_bs then (LStrEsc q, st)
-              else if is_line_end cfg c then (LErr, st) else (LStr q, st)
-  | LStrEsc q => if is_line_end cfg c then (LErr, st) else (LStr q, st)
-  | LTri q => if c =? q then (LTri1 q, st) else if c =? ch_bs then (LTriEsc q, st) else (LTri q, st)
-  | LTriEsc q => (LTri q, st)
-  | LTri1 q => if c =? q then (LTri2 q, st) else if c =? ch_bs then (LTriEsc q, st) else (LTri q, st)
-  | LTri2 q => if c =? q then (LCode, st) else if c =? ch_bs then (LTriEsc q, st) else (LTri q, st)
-  | LRaw => if c =? c_tick then (LCode, st) else (LRaw, st)
-  | LTpl => if c =? c_tick then (LCode, st) else if c =? ch_bs then (LTplEsc, st) else (LTpl, st)
-  | LTplEsc => (LTpl, st)
-  | LTick => if c =? c_tick then (LCode, st) else if is_line_end cfg c then (LErr, st) else (LTick, st)
-  | LErr => (LErr, st)
+  | C10LCode => c10_code_step cfg st c
+  | C10LSlash => if c =? c10_c_slash then (C10LLine, st) else if c =? c10_c_star then (C10LBlock 0, st) else c10_code_step cfg st c
+  | C10LLine => if c10_is_line_end cfg c then (C10LCode, st) else (C10LLine, st)
+  | C10LBlock d => if c =? c10_c_star then (C10LBlockStar d, st)
+                else if (c =? c10_c_slash) && c10_lc_nest cfg then (C10LBlockSlash d, st) else (C10LBlock d, st)
+  | C10LBlockStar d => if c =? c10_c_slash then (match d with O => C10LCode | S d' => C10LBlock d' end, st)
+                    else if c =? c10_c_star then (C10LBlockStar d, st) else (C10LBlock d, st)
+  | C10LBlockSlash d => if c =? c10_c_star then (C10LBlock (S d), st)
+                     else if c =? c10_c_slash then (C10LBlockSlash d, st) else (C10LBlock d, st)
+  | C10LQ1 q => if c =? q then (C10LQ2 q, st)
+             else if c =? ch_bs then (C10LStrEsc q, st)
+             else if c10_is_line_end cfg c then (C10LErr, st) else (C10LStr q, st)
+  | C10LQ2 q => if c =? q then (C10LTri q, st) else c10_code_step cfg st c
+  | C10LStr q => if c =? q then (C10LCode, st)
+              else if c =? ch_bs then (C10LStrEsc q, st)
+              else if c10_is_line_end cfg c then (C10LErr, st) else (C10LStr q, st)
+  | C10LStrEsc q => if c10_is_line_end cfg c then (C10LErr, st) else (C10LStr q, st)
+  | C10LTri q => if c =? q then (C10LTri1 q, st) else if c =? ch_bs then (C10LTriEsc q, st) else (C10LTri q, st)
+  | C10LTriEsc q => (C10LTri q, st)
+  | C10LTri1 q => if c =? q then (C10LTri2 q, st) else if c =? ch_bs then (C10LTriEsc q, st) else (C10LTri q, st)
+  | C10LTri2 q => if c =? q then (C10LCode, st) else if c =? ch_bs then (C10LTriEsc q, st) else (C10LTri q, st)
+  | C10LRaw => if c =? c10_c_tick then (C10LCode, st) else (C10LRaw, st)
+  | C10LTpl => if c =? c10_c_tick then (C10LCode, st) else if c =? ch_bs then (C10LTplEsc, st) else (C10LTpl, st)
+  | C10LTplEsc => (C10LTpl, st)
+  | C10LTick => if c =? c10_c_tick then (C10LCode, st) else if c10_is_line_end cfg c then (C10LErr, st) else (C10LTick, st)
+  | C10LErr => (C10LErr, st)
   end.
 
-Definition lex_init : lstate := (LCode, []).
-Definition lex_run (cfg : lexcfg) (s : lstate) (text : str) : lstate := fold_left (lex_step cfg) text s.
+Definition c10_lex_init : c10_lstate := (C10LCode, []).
+Definition c10_lex_run (cfg : c10_lexcfg) (s : c10_lstate) (text : str) : c10_lstate := fold_left (c10_lex_step cfg) text s.
 
-Definition lex_final_ok (s : lstate) : bool :=
-  match s with (LCode, []) => true | _ => false end.
+Definition c10_lex_final_ok (s : c10_lstate) : bool :=
+  match s with (C10LCode, []) => true | _ => false end.
 
-Definition balanced (cfg : lexcfg) (text : str) : bool := lex_final_ok (lex_run cfg lex_init text).
+Definition c10_balanced (cfg : c10_lexcfg) (text : str) : bool := c10_lex_final_ok (c10_lex_run cfg c10_lex_init text).
 
-Definition balanced_ts := balanced lex_ts.
-Definition balanced_kt := balanced lex_kt.
-Definition balanced_sw := balanced lex_sw.
-Definition balanced_sc := balanced lex_sc.
-Definition balanced_go := balanced lex_go.
-Definition balanced_py := balanced lex_py.
+Definition c10_balanced_ts := c10_balanced c10_lex_ts.
+Definition c10_balanced_kt := c10_balanced c10_lex_kt.
+Definition c10_balanced_sw := c10_balanced c10_lex_sw.
+Definition c10_balanced_sc := c10_balanced c10_lex_sc.
+Definition c10_balanced_go := c10_balanced c10_lex_go.
+Definition c10_balanced_py := c10_balanced c10_lex_py.
 
 (* the verdict with the place of the first error, for the check *)
-Inductive lex_verdict :=
-| LexBalanced
-| LexErrorAt (pos : N) (s : lstate)       (* the state BEFORE the offending character *)
-| LexOpenAtEnd (s : lstate).              (* the text ends inside a literal / comment or with open brackets *)
+Inductive c10_lex_verdict :=
+| C10LexBalanced
+| C10LexErrorAt (pos : N) (s : c10_lstate)       (* the state BEFORE the offending character *)
+| C10LexOpenAtEnd (s : c10_lstate).              (* the text ends inside a literal / comment or with open brackets *)
 
-Fixpoint lex_scan (cfg : lexcfg) (s : lstate) (pos : N) (text : str) : lex_verdict :=
+Fixpoint c10_lex_scan (cfg : c10_lexcfg) (s : c10_lstate) (pos : N) (text : str) : c10_lex_verdict :=
   match text with
-  | [] => if lex_final_ok s then LexBalanced else LexOpenAtEnd s
-  | c :: r => let s' := lex_step cfg s c in
+  | [] => if c10_lex_final_ok s then C10LexBalanced else C10LexOpenAtEnd s
+  | c :: r => let s' := c10_lex_step cfg s c in
               match fst s' with
-              | LErr => LexErrorAt pos s
-              | _ => lex_scan cfg s' (pos + 1) r
+              | C10LErr => C10LexErrorAt pos s
+              | _ => c10_lex_scan cfg s' (pos + 1) r
               end
   end.
-Definition lex_verdict_of (cfg : lexcfg) (text : str) : lex_verdict := lex_scan cfg lex_init 0 text.
+Definition c10_lex_verdict_of (cfg : c10_lexcfg) (text : str) : c10_lex_verdict := c10_lex_scan cfg c10_lex_init 0 text.
 
 (* ------------------------------------------------------------------ the domain: shapes of names, keys, docs *)
 Definition c10_ident_start (c : char) : bool := is_aalpha c || (c =? ch_us).
 Definition c10_ident_char (c : char) : bool := is_aalpha c || is_adigit c || (c =? ch_us).
 (* identifier-shaped: [A-Za-z_][A-Za-z0-9_]* *)
-Definition ident_ok (s : str) : bool :=
+Definition c10_ident_ok (s : str) : bool :=
   match s with [] => false | c :: r => c10_ident_start c && forallb c10_ident_char r end.
 (* the key alphabet of the properties, [A-Za-z0-9_-]+ *)
 Definition c10_key_char (c : char) : bool := is_aalpha c || is_adigit c || (c =? ch_us) || (c =? ch_dash).
-Definition key_ok (s : str) : bool := match s with [] => false | _ => forallb c10_key_char s end.
+Definition c10_key_ok (s : str) : bool := match s with [] => false | _ => forallb c10_key_char s end.
 (* version strings and dotted package names: [A-Za-z0-9_.+-]* *)
 Definition c10_dotted_char (c : char) : bool := c10_key_char c || (c =? 46) || (c =? 43).
-Definition dotted_ok (s : str) : bool := forallb c10_dotted_char s.
+Definition c10_dotted_ok (s : str) : bool := forallb c10_dotted_char s.
 (* doc text that cannot break out of any comment form a back end uses (the subject of C15; this is the
    conservative local predicate: no line end, no backslash, no star-slash, no three double quotes in a row) *)
-Definition doc_ok (s : str) : bool :=
+Definition c10_doc_ok (s : str) : bool :=
   forallb (fun c => negb ((c =? ch_nl) || (c =? ch_cr) || (c =? ch_bs))) s &&
-  negb (contains_sub [c_star; c_slash] s) && negb (contains_sub [c_slash; c_star] s) &&
+  negb (contains_sub [c10_c_star; c10_c_slash] s) && negb (contains_sub [c10_c_slash; c10_c_star] s) &&
   negb (contains_sub [ch_dq; ch_dq; ch_dq] s).
 
 (* ------------------------------------------------------------------ neutral characters and verbatim text *)
 (* the characters that mean something to one of the six lexers in code mode: brackets, quotes, back-tick,
    slash, hash *)
 Definition c10_special (c : char) : bool :=
-  existsb (N.eqb c) [c_lparen; c_rparen; c_lbrack; c_rbrack; c_lbrace; c_rbrace; ch_dq; ch_sq; c_tick; c_slash; c_hash].
+  existsb (N.eqb c) [c10_c_lparen; c10_c_rparen; c10_c_lbrack; c10_c_rbrack; c10_c_lbrace; c10_c_rbrace; ch_dq; ch_sq; c10_c_tick; c10_c_slash; c10_c_hash].
 (* a token made of characters that leave every lexer in code mode with the same stack *)
-Definition tok_ok (s : str) : bool := forallb (fun c => negb (c10_special c)) s.
+Definition c10_tok_ok (s : str) : bool := forallb (fun c => negb (c10_special c)) s.
 (* text inside a single-line "..." literal printed WITHOUT escaping: no quote, backslash or line end *)
-Definition instr_ok (s : str) : bool :=
+Definition c10_instr_ok (s : str) : bool :=
   forallb (fun c => negb ((c =? ch_dq) || (c =? ch_bs) || (c =? ch_nl) || (c =? ch_cr))) s.
 (* text inside back-ticks (Go raw string, Kotlin / Swift / Scala quoted identifier) *)
-Definition intick_ok (s : str) : bool :=
-  forallb (fun c => negb ((c =? c_tick) || (c =? ch_nl) || (c =? ch_cr))) s.
+Definition c10_intick_ok (s : str) : bool :=
+  forallb (fun c => negb ((c =? c10_c_tick) || (c =? ch_nl) || (c =? ch_cr))) s.
 
 (* verbatim user text (type overrides, type_mappings values, decorators) is a hole like any other as
-   soon as it is balanced ON ITS OWN in the language it is pasted into *)
-Definition raw_ok (cfg : lexcfg) (t : str) : bool := balanced cfg t.
+   soon as it is c10_balanced ON ITS OWN in the language it is pasted into *)
+Definition c10_raw_ok (cfg : c10_lexcfg) (t : str) : bool := c10_balanced cfg t.
 
-(* a target type expression all of whose names are neutral tokens and whose verbatim parts are balanced *)
-From TS Require Import Model.Lang.Decl.
-Fixpoint c10_texp_ok (cfg : lexcfg) (x : texp) : bool :=
+(* a target type expression all of whose names are neutral tokens and whose verbatim parts are c10_balanced *)
+Fixpoint c10_texp_ok (cfg : c10_lexcfg) (x : texp) : bool :=
   match x with
-  | XName n args => tok_ok n && forallb (c10_texp_ok cfg) args
+  | XName n args => c10_tok_ok n && forallb (c10_texp_ok cfg) args
   | XSeq e | XOpt e => c10_texp_ok cfg e
   | XFixed es => forallb (c10_texp_ok cfg) es
   | XMap k v => c10_texp_ok cfg k && c10_texp_ok cfg v
-  | XRaw t => raw_ok cfg t
+  | XRaw t => c10_raw_ok cfg t
   end.
 
 (* ------------------------------------------------------------------ the promised keyword escapes *)
@@ -262,26 +261,106 @@ Definition c10_is_option (t : rtype) : bool := match t with ROption _ => true | 
 Definition c10_has_items (pd : parsed) : bool :=
   match p_structs pd, p_enums pd, p_aliases pd with [], [], [] => false | _, _, _ => true end.
 
-Definition cls10 (b : bool) (s : string) : list string := if b then [s] else [].
+Definition c10_cls10 (b : bool) (s : string) : list string := if b then [s] else [].
 
 (* every class a (language, package setting, input) falls in; [] = no finding class applies *)
 Definition known_C10 (l : c10_lang) (package : str) (pd : parsed) : list string :=
   match l with
   | CSC =>
     (* `x: T = _` for serde(default) on a non-Option field: not valid in a parameter list *)
-    cls10 (existsb (fun f => has_default f && negb (c10_is_option (fty f))) (c10_all_fields pd)) "C10-scala-default" ++
+    c10_cls10 (existsb (fun f => has_default f && negb (c10_is_option (fty f))) (c10_all_fields pd)) "C10-scala-default" ++
     (* a package name without a dot: no `package x {` opener, but the closing brace is printed *)
-    cls10 (negb (contains_char 46 package) && c10_has_items pd) "C10-scala-package-brace"
+    c10_cls10 (negb (contains_char 46 package) && c10_has_items pd) "C10-scala-package-brace"
   | CSW =>
     (* a property named inout / var / let: back-ticked where it is declared, raw as the init label *)
-    cls10 (existsb (fun f => mem_str (renamed (fid f)) c10_swift_label_keywords) (c10_all_fields pd)) "C10-swift-label"
+    c10_cls10 (existsb (fun f => mem_str (renamed (fid f)) c10_swift_label_keywords) (c10_all_fields pd)) "C10-swift-label"
   | CPY =>
     (* `Name[T] = List[T]`: a subscript assignment to an undefined name, fails when the module is imported *)
-    cls10 (existsb (fun a => match agenerics a with [] => false | _ => true end) (p_aliases pd)) "C10-python-generic-alias" ++
+    c10_cls10 (existsb (fun a => match agenerics a with [] => false | _ => true end) (p_aliases pd)) "C10-python-generic-alias" ++
     (* `Name = Union[]` for an algebraic enum without variants: a syntax error *)
-    cls10 (existsb (fun e => match e with
+    c10_cls10 (existsb (fun e => match e with
                              | EAlgebraic _ _ sh => match evariants sh with [] => true | _ => false end
                              | EUnit _ => false
                              end) (p_enums pd)) "C10-python-empty-union"
   | CTS | CKT | CGO => []
   end.
+
+(* ------------------------------------------------------------------ what the check evaluates *)
+Definition c10_cfg_of (l : c10_lang) : c10_lexcfg :=
+  match l with CTS => c10_lex_ts | CKT => c10_lex_kt | CSW => c10_lex_sw | CSC => c10_lex_sc | CGO => c10_lex_go | CPY => c10_lex_py end.
+Definition c10_lang_of (l : c10_lang) : lang :=
+  match l with CTS => TypeScript | CKT => Kotlin | CSW => Swift | CSC => Scala | CGO => Go | CPY => Python end.
+
+(* good, lexical half: the judgement of one output file *)
+Definition c10_lex (l : c10_lang) (text : str) : c10_lex_verdict := c10_lex_verdict_of (c10_cfg_of l) text.
+Definition good_C10_lex (l : c10_lang) (text : str) : bool := c10_balanced (c10_cfg_of l) text.
+
+(* good, keyword half, over the observation of Model/Lang/Decl.v (the extractor of lib/extract.py yields the
+   same observation from the real text).
+   Swift: a declared type / property name that is in SWIFT_KEYWORDS is written in back-ticks.
+   Python: no declared attribute name is a Python keyword, and an attribute the back end reports as
+   escaped ends in `_`. *)
+Definition c10_ends_with_us (s : str) : bool := match rev s with c :: _ => c =? ch_us | [] => false end.
+Definition c10_kw_member_good (l : c10_lang) (m : member) : bool :=
+  match l with
+  | CSW => implb (mem_str (mb_name m) c10_swift_keywords) (mb_escaped m)
+  | CPY => negb (mem_str (mb_name m) c10_python_keywords) && implb (mb_escaped m) (c10_ends_with_us (mb_name m))
+  | _ => true
+  end.
+Definition c10_kw_decl_good (l : c10_lang) (d : decl) : bool :=
+  match l with
+  | CSW => implb (mem_str (d_name d) c10_swift_keywords) (d_escaped d)
+  | _ => true
+  end && forallb (c10_kw_member_good l) (d_members d).
+Definition good_C10_kw (l : c10_lang) (ds : list decl) : bool := forallb (c10_kw_decl_good l) ds.
+(* Swift argument labels: `inout`, `var`, `let` cannot be labels *)
+Definition good_C10_swift_labels (labels : list str) : bool :=
+  forallb (fun x => negb (mem_str x c10_swift_label_keywords)) labels.
+
+(* dom: the shape of names, keys, docs and verbatim text the property quantifies over ("doc-induced breakage
+   belongs to C15"): Rust identifiers are identifier-shaped, renamed fields / variants / tag and content keys
+   are key-shaped, renamed types and generic parameters identifier-shaped, every doc line is safe, and every
+   verbatim decorator / type override for the language at hand is c10_balanced on its own in that language. *)
+Fixpoint c10_rtype_ok (t : rtype) : bool :=
+  match t with
+  | RSimple id => c10_ident_ok id
+  | RGeneric id ps => c10_ident_ok id && forallb c10_rtype_ok ps
+  | RVec x | RSlice x | ROption x | RArray x _ => c10_rtype_ok x
+  | RHashMap k v => c10_rtype_ok k && c10_rtype_ok v
+  | RPrim _ => true
+  end.
+Definition c10_member_id_ok (i : id) : bool := c10_ident_ok (original i) && c10_key_ok (renamed i).
+Definition c10_type_id_ok (i : id) : bool := c10_ident_ok (original i) && c10_ident_ok (renamed i).
+Definition c10_fdecor_ok (cfg : c10_lexcfg) (d : fdecor) : bool :=
+  match d with DWord w => c10_tok_ok w | DNameValue n v => c10_tok_ok n && c10_raw_ok cfg v end.
+Definition c10_field_ok (l : c10_lang) (f : rfield) : bool :=
+  c10_member_id_ok (fid f) && c10_rtype_ok (fty f) && forallb c10_doc_ok (fcomments f) &&
+  match lookup_lang (c10_lang_of l) (fdecs f) with
+  | Some ds => forallb (c10_fdecor_ok (c10_cfg_of l)) ds
+  | None => true
+  end.
+Definition c10_decmap_ok (l : c10_lang) (m : decmap) : bool :=
+  forallb (fun kv => forallb (c10_raw_ok (c10_cfg_of l)) (snd kv)) m.
+Definition c10_variant_ok (l : c10_lang) (v : rvariant) : bool :=
+  c10_member_id_ok (vid (variant_shared v)) && forallb c10_doc_ok (vcomments (variant_shared v)) &&
+  match v with
+  | VUnit _ => true
+  | VTuple t _ => c10_rtype_ok t
+  | VAnon fs _ => forallb (c10_field_ok l) fs
+  end.
+Definition c10_item_ok (l : c10_lang) (it : ritem) : bool :=
+  match it with
+  | ItStruct s => c10_type_id_ok (sid s) && forallb c10_ident_ok (sgenerics s) && forallb (c10_field_ok l) (sfields s) &&
+                  forallb c10_doc_ok (scomments s) && c10_decmap_ok l (sdecs s)
+  | ItEnum e =>
+    let sh := enum_shared e in
+    c10_type_id_ok (eid sh) && forallb c10_ident_ok (egenerics sh) && forallb c10_doc_ok (ecomments sh) &&
+    forallb (c10_variant_ok l) (evariants sh) && c10_decmap_ok l (edecs sh) &&
+    match e with EUnit _ => true | EAlgebraic tag content _ => c10_key_ok tag && c10_key_ok content end
+  | ItAlias a => c10_type_id_ok (aid a) && forallb c10_ident_ok (agenerics a) && c10_rtype_ok (atype a) &&
+                 forallb c10_doc_ok (acomments a) && c10_decmap_ok l (adecs a)
+  | ItConst c => c10_type_id_ok (cid c) && c10_rtype_ok (ctype c)
+  end.
+Definition dom_C10 (l : c10_lang) (pd : parsed) : bool :=
+  forallb (c10_item_ok l)
+          (map ItAlias (p_aliases pd) ++ map ItStruct (p_structs pd) ++ map ItEnum (p_enums pd) ++ map ItConst (p_consts pd)).
